@@ -1,14 +1,16 @@
 ------------------------------- MODULE Forms -------------------------------
 (* C13 -- a grammar of user-written weak forms and its meaning.  Expressions over the           *)
 (* gradient of the trial field u and of the test field v:                                        *)
-(*      E ::= G | T(E) | Sym(E) | TrI(E)            (gradient, transpose, symmetric part, tr(E) I)*)
+(*      E ::= G | T(E) | Sym(E) | TrI(E) | M(E)     (gradient, transpose, symmetric part, tr(E) I, *)
+(*                                                   product M E with a fixed UNSYMMETRIC matrix)  *)
 (*      F ::= Ddot(E_u, E_v) | Scale(k, F) | Plus(F, F)                                          *)
 (* A form is bilinear in (grad u, grad v), so its meaning is the coefficient tensor               *)
 (*      T[a][i][b][j] = F(grad u := e_a (x) e_i, grad v := e_b (x) e_j)                           *)
 (* computed here by evaluating the expression on unit inputs over exact rationals.  TLC            *)
 (* enumerates every form of the grammar up to the configured depth; each state is compiled to a   *)
 (* Python lambda over Field / FeArray operations and BiLinearForm.Integrate_e / Assemble are       *)
-(* compared with  sum_p wJ T[a][i][b][j] dN_m,i dN_n,j  computed by explicit loops.                *)
+(* compared with  K[(n,b),(m,a)] = sum_p wJ T[a][i][b][j] dN_m,i dN_n,j  (row = TEST function n, component b;      *)
+(* column = TRIAL function m, component a: the orientation that makes K u = F the discrete form of a(u, v) = l(v))  *)
 EXTENDS Rat, FiniteSets, Sequences, TLC, Json
 
 CONSTANTS Dims, Emit
@@ -22,12 +24,18 @@ SymP(d, m) == [r \in 1..d |-> [c \in 1..d |-> Mul(Half, Add(m[r][c], m[c][r]))]]
 TrIP(d, m) == [r \in 1..d |-> [c \in 1..d |-> IF r = c THEN Tr(d, m) ELSE Zero]]
 DdotM(d, m, n) == LET S[k \in 0..(d * d)] == IF k = 0 THEN Zero ELSE Add(S[k - 1], Mul(m[((k - 1) \div d) + 1][((k - 1) % d) + 1], n[((k - 1) \div d) + 1][((k - 1) % d) + 1])) IN S[d * d]
 
-Exprs == {<<"G">>, <<"T", "G">>, <<"Sym", "G">>, <<"TrI", "G">>, <<"Sym", "T", "G">>, <<"T", "Sym", "G">>}
+(* M: a fixed matrix that is not symmetric.  Transpose, symmetric part and tr(.) I are self-adjoint and commute, so every   *)
+(* form built from them alone is symmetric in (u, v) and cannot tell which of the two fields indexes the rows of the element *)
+(* matrix; M (u -> M grad u) is not self-adjoint: the forms that use it on one side only are NOT symmetric.                   *)
+MatM(d) == [r \in 1..d |-> [c \in 1..d |-> IF c = r THEN RI(r) ELSE IF c = (r % d) + 1 THEN RI(2) ELSE Zero]]
+MulM(d, m, n) == [r \in 1..d |-> [c \in 1..d |-> LET S[k \in 0..d] == IF k = 0 THEN Zero ELSE Add(S[k - 1], Mul(m[r][k], n[k][c])) IN S[d]]]
+Exprs == {<<"G">>, <<"T", "G">>, <<"Sym", "G">>, <<"TrI", "G">>, <<"Sym", "T", "G">>, <<"T", "Sym", "G">>, <<"M", "G">>, <<"M", "T", "G">>}
 RECURSIVE EvalE(_, _, _)
 EvalE(d, e, g) ==
     IF Len(e) = 1 THEN g
     ELSE LET inner == EvalE(d, Tail(e), g) IN
          CASE Head(e) = "T" -> Transp(d, inner) [] Head(e) = "Sym" -> SymP(d, inner) [] Head(e) = "TrI" -> TrIP(d, inner)
+           [] Head(e) = "M" -> MulM(d, MatM(d), inner)
 
 (* a form: a sequence of weighted products  k * Ddot(Eu, Ev) *)
 Weights == {One, R(3, 2), RI(-2)}
@@ -42,7 +50,9 @@ TwoTerm == {<<[k |-> RI(2), eu |-> <<"TrI", "G">>, ev |-> <<"TrI", "G">>], [k |-
             <<[k |-> R(3, 2), eu |-> <<"G">>, ev |-> <<"G">>], [k |-> RI(-2), eu |-> <<"T", "G">>, ev |-> <<"Sym", "G">>]>>}
 Forms == OneTerm \cup TwoTerm
 
-Init == \E d \in Dims, f \in Forms, c \in {"const", "x"} : fm = [dim |-> d, form |-> f, coef |-> c, tensor |-> Tensor(d, f)]
+(* the form is symmetric when exchanging trial and test fields leaves its tensor unchanged *)
+IsSym(d, t) == \A a, i, b, j \in 1..d : t[a][i][b][j] = t[b][j][a][i]
+Init == \E d \in Dims, f \in Forms, c \in {"const", "x"} : LET t == Tensor(d, f) IN fm = [dim |-> d, form |-> f, coef |-> c, tensor |-> t, sym |-> IsSym(d, t), mat |-> MatM(d)]
 Next == UNCHANGED fm
 Spec == Init /\ [][Next]_vars
 
